@@ -159,7 +159,9 @@ jwk_prep_handles(jose_cfg_t *cfg, const json_t *jwk)
 {
     const char *alg = NULL;
 
-    if (json_unpack((json_t *) jwk, "{s:s}", "alg", &alg) == -1)
+    /* json_unpack() allocates: its failure must not read as "not ours". */
+    alg = json_string_value(json_object_get(jwk, "alg"));
+    if (!alg)
         return false;
 
     return alg2crv(alg) != NULL;
